@@ -669,7 +669,9 @@ pub fn gen_query_control(r: &mut Rng) -> Case {
     let doc = *r.pick(&["{value}", "{ value }", "query { value }", "query Q { value }", "# c\n{ value }"]);
     let mut pairs = vec![("query".to_string(), doc.to_string())];
     if doc.contains("Q") && r.bool() {
-        pairs.extend(opname_pairs(r, Some("Q"), Some("Q")));
+        // the standard spelling only: a query string carrying both spellings is a
+        // duplicate parameter for integrations that accept either
+        pairs.extend(opname_pairs(r, Some("Q"), None));
     }
     let mut c = finish_get(r, Kind::QueryControl, pairs, None, vec!["query_control"], None);
     c.wire.accept_multipart = false;
